@@ -157,7 +157,11 @@ macro_rules! distance_func_template {
                         )
                     ))] {
                         // Detect runtime CPU features, cache and call
+                        #[cfg(fast_tlsh_verif)]
+                        crate::verif::sched_point(concat!("enter:", stringify!($name)));
                         $dispatch.get_or_init(|| {
+                            #[cfg(fast_tlsh_verif)]
+                            crate::verif::sched_point(concat!("init:", stringify!($name)));
                             #[cfg(all(target_arch = "arm"))]
                             {
                                 if is_arm_feature_detected!("neon") {
@@ -171,6 +175,8 @@ macro_rules! distance_func_template {
                             }
                             #[cfg(any(target_arch = "x86", target_arch = "x86_64"))]
                             {
+                                #[cfg(fast_tlsh_verif)]
+                                crate::verif::sched_point(concat!("probe-avx2:", stringify!($name)));
                                 if is_x86_feature_detected!("avx2") {
                                     return &|body1, body2| {
                                         #[allow(unsafe_code)]
@@ -179,6 +185,8 @@ macro_rules! distance_func_template {
                                         }
                                     };
                                 }
+                                #[cfg(fast_tlsh_verif)]
+                                crate::verif::sched_point(concat!("probe-sse4.1:", stringify!($name)));
                                 if is_x86_feature_detected!("sse4.1") {
                                     return &|body1, body2| {
                                         #[allow(unsafe_code)]
@@ -187,6 +195,8 @@ macro_rules! distance_func_template {
                                         }
                                     };
                                 }
+                                #[cfg(fast_tlsh_verif)]
+                                crate::verif::sched_point(concat!("probe-sse2:", stringify!($name)));
                                 if is_x86_feature_detected!("sse2") {
                                     return &|body1, body2| {
                                         #[allow(unsafe_code)]
@@ -196,6 +206,8 @@ macro_rules! distance_func_template {
                                     };
                                 }
                             }
+                            #[cfg(fast_tlsh_verif)]
+                            crate::verif::sched_point(concat!("fallback:", stringify!($name)));
                             if usize::BITS >= 64 {
                                 &pseudo_simd_64::$name
                             } else {
@@ -326,6 +338,89 @@ pub(crate) mod naive {
                     .sum::<u32>()
             })
             .sum::<u32>()
+    }
+}
+
+/// Verification hooks: direct entry points to each compiled backend.
+///
+/// Each function returns [`None`] if the backend named `backend` is not
+/// compiled in this configuration or the CPU lacks the required feature.
+#[cfg(fast_tlsh_verif)]
+#[allow(missing_docs)]
+pub mod verif_backends {
+    /// Names of all backends this module may know about.
+    pub const BACKENDS: &[&str] = &["dispatch", "pseudo32", "pseudo64", "sse2", "sse4.1", "avx2"];
+
+    pub fn distance_12(backend: &str, body1: &[u8; 12], body2: &[u8; 12]) -> Option<u32> {
+        match backend {
+            "dispatch" => Some(super::distance_12(body1, body2)),
+            "pseudo32" => Some(super::pseudo_simd_32::distance_12(body1, body2)),
+            "pseudo64" => Some(super::pseudo_simd_64::distance_12(body1, body2)),
+            _ => None,
+        }
+    }
+
+    /// Generates backend selection functions like [`distance_32()`].
+    macro_rules! backend_func_template {
+        {$($name:ident = $size:literal;)*} => {
+            $(
+                pub fn $name(backend: &str, body1: &[u8; $size], body2: &[u8; $size]) -> Option<u32> {
+                    match backend {
+                        "dispatch" => Some(super::$name(body1, body2)),
+                        "pseudo32" => Some(super::pseudo_simd_32::$name(body1, body2)),
+                        "pseudo64" => Some(super::pseudo_simd_64::$name(body1, body2)),
+                        #[cfg(all(
+                            feature = "simd-per-arch",
+                            feature = "opt-simd-body-comparison",
+                            feature = "detect-features",
+                            any(target_arch = "x86", target_arch = "x86_64")
+                        ))]
+                        "sse2" => {
+                            if std::arch::is_x86_feature_detected!("sse2") {
+                                #[allow(unsafe_code)]
+                                Some(unsafe { super::x86_sse2::$name(body1, body2) })
+                            } else {
+                                None
+                            }
+                        }
+                        #[cfg(all(
+                            feature = "simd-per-arch",
+                            feature = "opt-simd-body-comparison",
+                            feature = "detect-features",
+                            any(target_arch = "x86", target_arch = "x86_64")
+                        ))]
+                        "sse4.1" => {
+                            if std::arch::is_x86_feature_detected!("sse4.1") {
+                                #[allow(unsafe_code)]
+                                Some(unsafe { super::x86_sse4_1::$name(body1, body2) })
+                            } else {
+                                None
+                            }
+                        }
+                        #[cfg(all(
+                            feature = "simd-per-arch",
+                            feature = "opt-simd-body-comparison",
+                            feature = "detect-features",
+                            any(target_arch = "x86", target_arch = "x86_64")
+                        ))]
+                        "avx2" => {
+                            if std::arch::is_x86_feature_detected!("avx2") {
+                                #[allow(unsafe_code)]
+                                Some(unsafe { super::x86_avx2::$name(body1, body2) })
+                            } else {
+                                None
+                            }
+                        }
+                        _ => None,
+                    }
+                }
+            )*
+        }
+    }
+
+    backend_func_template! {
+        distance_32 = 32;
+        distance_64 = 64;
     }
 }
 
